@@ -237,6 +237,27 @@ func runChain(t *rapid.T) {
 	flags := map[string]bool{}
 	for i := 0; i < length; i++ {
 		h := m.Tip + 1
+		// A node's history is more than its chain: blocks of an abandoned branch are processed and reverted (fork switch).
+		// The node under test (not the twin, not the model) takes such detours; what it reports afterwards must not depend on them.
+		if rapid.IntRange(0, 4).Draw(t, "detour") == 0 {
+			dump := s.Dump()
+			k := rapid.IntRange(1, 3).Draw(t, "detourLen")
+			for j := 0; j < k; j++ {
+				g := rapid.SampledFrom(current.idx).Draw(t, "detourGen")
+				dp, _, _ := s.Heights()
+				dh := &bftsim.Hdr{H: h + uint32(j), Gen: pool[g], MHG: lastGen[g], MHP: dp}
+				var ch *bftsim.Params
+				if rapid.IntRange(0, 1).Draw(t, "detourChange") == 0 {
+					x := drawParams(t, batch, "detourChg").sim()
+					ch = &x
+				}
+				if err := s.Apply(dh, ch); err != nil {
+					break
+				}
+			}
+			s.Load(dump)
+			flags["detour"] = true
+		}
 		var st step
 		ok := false
 		for try := 0; try < 6 && !ok; try++ {
@@ -402,7 +423,7 @@ func runChain(t *rapid.T) {
 	if long {
 		labels = append(labels, "longer-than-window")
 	}
-	for k := range map[string]bool{"param-change": true, "validator-left": true, "validator-joined": true, "mhg>=h": true, "certified": true, "noop-change": true, "gen-standby": true, "gen-removed": true} {
+	for k := range map[string]bool{"detour": true, "param-change": true, "validator-left": true, "validator-joined": true, "mhg>=h": true, "certified": true, "noop-change": true, "gen-standby": true, "gen-removed": true} {
 		if flags[k] {
 			labels = append(labels, k)
 		}
